@@ -384,7 +384,41 @@ def corr_names(ctx, tab):
     for i in bad:
         ctx.tie_broken("correspondence", "short-names", f"_make_short_name_mapper on {seqs[i]!r} gave {obs[i]!r}, model differs")
     ctx.obligation(f"correspondence: real _make_short_name_mapper = Export/Cleanup.v `short_rename_all` on {nseq} name sequences", not bad)
-    ctx.cover(cleanup_strings=len(names), cleanup_disagreements=bad_total, short_name_sequences=nseq)
+    # the unique-name wrapper (repair C13_07), when the implementation has it: one fresh wrapper per sequence, around the
+    # clean-up or around a fresh short-name mapper; pools with planted collisions and with names that already look suffixed
+    nuniq = 0
+    if hasattr(E, "_make_unique_name_mapper"):
+        nuniq = 120 if ctx.tier == "quick" else 500
+        rows = []
+        for k in range(nuniq):
+            pool = [rng.choice(names) for _ in range(rng.randint(1, 6))]
+            for b in list(pool):
+                if rng.random() < 0.6:
+                    pool.append(rng.choice([b.replace("_", ".", 1), b.replace(".", "_"), b + "_0", b + "_1", b + ".0", "_" + b]))
+            pool = [p for p in pool if p]
+            seq = [rng.choice(pool) for _ in range(rng.randint(1, 12))]
+            short = k % 3 == 0
+            ren = E._make_unique_name_mapper(E._make_short_name_mapper() if short else E._cleanup_variable_name)
+            obs_u = [ren(x) for x in seq]
+            base = E._make_short_name_mapper() if short else E._cleanup_variable_name
+            bases = [base(x) for x in seq]
+            collided = len(set(bases)) != len(set(seq))
+            ctx.case(("unique-names", short, collided, len(set(obs_u)) == len(set(seq))))
+            if len(set(obs_u)) != len(set(seq)) or not all(o.isidentifier() and not keyword.iskeyword(o) for o in obs_u):
+                ctx.violation("C13:names:unique-mapper:not-distinct-or-not-identifier", f"_make_unique_name_mapper on {seq!r} gave {obs_u!r}",
+                              {"sequence": seq, "result": obs_u, "short_names": short})
+            rows.append(f"({clist(seq, cstr)}, {clist(bases, cstr)}, {clist(obs_u, cstr)})")
+        ok, vals, raw = ctx.coq_eval(["OV.Export.Cleanup", "OV.Export.Unique"],
+                                     f"Definition cases : list (list string * list string * list string) := {clist(rows)}.\nEval vm_compute in (disagreeing_uniq 0 cases).", name="unique")
+        if not ok or not vals:
+            ctx.tie_broken("correspondence", "unique-names:model-evaluation", raw[-800:])
+        else:
+            badu = common.parse_nat_list(vals[0])
+            for i in badu[:5]:
+                ctx.tie_broken("correspondence", "unique-names", f"case {i}: real _make_unique_name_mapper and Export/Unique.v `uniq_names` differ: {rows[i][:300]}")
+            ctx.obligation(f"correspondence: real _make_unique_name_mapper = Export/Unique.v `uniq_names` on {nuniq} name sequences with planted collisions "
+                           "(the model's bounded search for a free suffix always succeeded)", not badu)
+    ctx.cover(cleanup_strings=len(names), cleanup_disagreements=bad_total, short_name_sequences=nseq, unique_name_sequences=nuniq)
 
 
 # ----------------------------------------------------------------------------------------------- correspondence: emission
@@ -1016,4 +1050,4 @@ def run(ctx):
                            "skip_initializers and the counted Loop forms are modelled (Export/EmitCF.v) and compared, not covered by a soundness theorem; "
                            "If nodes whose outputs are all unused are not generated (the converter refuses them)")
     if ctx.tier == "thorough":
-        ctx.coqchk(["Props.C13", "Props.C13_unssa", "Props.C13_constrepr", "Props.C13_emit", "Props.C13_nested"])
+        ctx.coqchk(["Props.C13", "Props.C13_unssa", "Props.C13_constrepr", "Props.C13_emit", "Props.C13_nested", "Props.C13_unique"])
